@@ -301,13 +301,15 @@ def campaign_module_path(ck: Check, n: int) -> None:
 def build_doc(defs: dict, bases: dict, roots: dict | None = None) -> dict:
     """`defs`: dotted definition name -> list of dotted names it refers to (members);
     `bases`: dotted name -> dotted name of its base (allOf);
-    `roots`: dotted names (keys of `defs`) that are root models `array of $ref` instead of objects."""
+    `roots`: dotted names (keys of `defs`) that are root models `array of $ref` instead of objects.
+    Every object definition carries a member of its own (`m<k>`, k = position in the document), so that
+    the class a reference reaches can be told from every other class of the package (oracle (5))."""
     d = {}
     for name, refs in defs.items():
         if roots and name in roots:
             d[name] = {"type": "array", "items": {"$ref": f"#/definitions/{roots[name]}"}}
             continue
-        props = {"id": {"type": "integer"}}
+        props = {"id": {"type": "integer"}, f"m{list(defs).index(name)}": {"type": "string"}}
         for i, r in enumerate(refs):
             props[f"r{i}"] = {"$ref": f"#/definitions/{r}"}
         body = {"type": "object", "properties": props}
@@ -519,44 +521,191 @@ def static_oracle(files: dict[str, str]) -> list[dict]:
 
 
 IMPORT_SCRIPT = r"""
-import ast, importlib, json, sys, warnings
+import ast, importlib, json, os, sys, typing, unicodedata, warnings
 warnings.simplefilter("ignore")
 root = sys.argv[1]
 sys.path.insert(0, root)
-jobs = json.loads(open(sys.argv[2]).read())
+spec = json.loads(open(sys.argv[2]).read())
+jobs, expect = spec["jobs"], spec["expect"]
 out = {}
+
+def own_names(node):
+    return frozenset(ast.unparse(st.target) for st in node.body if isinstance(st, ast.AnnAssign))
+
+def registry_of(pkg):
+    # (module name, class name) -> the member names the class statement itself declares, for every file of the package
+    reg = {}
+    top = os.path.join(root, pkg)
+    for d, _, fs in os.walk(top):
+        for f in fs:
+            if not f.endswith(".py"):
+                continue
+            rel = os.path.relpath(os.path.join(d, f), root)[:-3].split(os.sep)
+            if rel[-1] == "__init__":
+                rel = rel[:-1]
+            try:
+                tree = ast.parse(open(os.path.join(d, f), encoding="utf-8").read())
+            except SyntaxError:
+                continue
+            for n in tree.body:
+                if isinstance(n, ast.ClassDef):
+                    reg[(".".join(rel), n.name)] = own_names(n)
+    return reg
+
+def package_classes(v, pkg, ns, depth=0):
+    # the classes of the generated package that occur in an evaluated annotation
+    if depth > 8:
+        return []
+    if isinstance(v, str):
+        try:
+            v = eval(v, dict(ns))
+        except Exception:
+            return []
+    if isinstance(v, typing.ForwardRef):
+        return package_classes(v.__forward_arg__, pkg, ns, depth + 1)
+    if isinstance(v, type) and not typing.get_args(v):
+        mod = getattr(v, "__module__", "")
+        return [v] if mod == pkg or mod.startswith(pkg + ".") else []
+    found = []
+    for a in typing.get_args(v):
+        found += package_classes(a, pkg, ns, depth + 1)
+    return found
+
+def describe(c, reg):
+    key = (c.__module__, c.__qualname__)
+    return f"{key[0].split('.', 1)[-1] if '.' in key[0] else '<root>'}.{key[1]} (members {sorted(reg.get(key, []))})"
+
 for pkg, modules in jobs.items():
-    res = {}
+    res, reach = {}, {}
+    reg = registry_of(pkg)
+    exp = expect.get(pkg, {"fields": [], "bases": []})
     for m in modules:
         for k in list(sys.modules):          # every module is imported as the first one of its package
             if k == pkg or k.startswith(pkg + "."):
                 del sys.modules[k]
         try:
-            mod = importlib.import_module(m)
+            # by the name an `import` statement can give: the compiler NFKC-normalises identifiers
+            mod = importlib.import_module(unicodedata.normalize("NFKC", m))
             # every annotation written in a class body of this module evaluates in this module's namespace
             # (the class's own annotations only: inherited ones belong to the module that wrote them)
             tree = ast.parse(open(mod.__file__, encoding="utf-8").read())
             res[m] = None
+            ns = dict(vars(mod))
             for cls in [n for n in tree.body if isinstance(n, ast.ClassDef)]:
+                own = own_names(cls)
+                values = {}
                 for st in cls.body:
                     if isinstance(st, ast.AnnAssign):
                         try:
-                            eval(compile(ast.Expression(st.annotation), mod.__file__, "eval"), dict(vars(mod)))
+                            values[ast.unparse(st.target)] = eval(compile(ast.Expression(st.annotation), mod.__file__, "eval"), dict(ns))
                         except Exception as e:
                             res[m] = f"annotation of {cls.name}.{ast.unparse(st.target)}: {type(e).__name__}: {e}"[:300]
                             break
                 if res[m]:
                     break
+                # (5) each use of a foreign (or local) model reaches the class of the definition it refers to
+                for owner, field, target in exp["fields"]:
+                    if frozenset(owner) != own or field not in values:
+                        continue
+                    got = package_classes(values[field], pkg, ns)
+                    bad = [c for c in got if reg.get((c.__module__, c.__qualname__)) != frozenset(target)]
+                    if bad or not got:
+                        what = describe(bad[0], reg) if bad else f"no class of the package (`{ast.unparse([st for st in cls.body if isinstance(st, ast.AnnAssign) and ast.unparse(st.target) == field][0].annotation)}`)"
+                        reach.setdefault(m, []).append(f"{cls.name}.{field} reaches {what}, not the definition with members {sorted(target)}"[:400])
+                for owner, base in exp["bases"]:
+                    if frozenset(owner) != own:
+                        continue
+                    got = []
+                    for b in cls.bases:
+                        try:
+                            got += package_classes(eval(compile(ast.Expression(b), mod.__file__, "eval"), dict(ns)), pkg, ns)
+                        except Exception as e:
+                            pass
+                    if not any(reg.get((c.__module__, c.__qualname__)) == frozenset(base) for c in got):
+                        what = describe(got[0], reg) if got else "no class of the package"
+                        reach.setdefault(m, []).append(f"base of {cls.name} is {what}, not the definition with members {sorted(base)}"[:400])
         except BaseException as e:
             res[m] = f"{type(e).__name__}: {e}"[:300]
-    out[pkg] = res
+    out[pkg] = {"modules": res, "reach": reach}
 print(json.dumps(out))
 """
 
 
-def import_packages(packages: dict[str, dict[str, str]], v1_shim: set[str]) -> dict[str, dict[str, str | None]]:
-    """Oracle (4): write every package to a scratch directory and import each of its modules in ONE
-    fresh interpreter. Returns per package: module -> None | error text."""
+def _schema_props(obj) -> list[str] | None:
+    """member names of an object schema (None: not a plain object with members)"""
+    if isinstance(obj, dict) and obj.get("type") == "object" and isinstance(obj.get("properties"), dict):
+        return sorted(obj["properties"])
+    return None
+
+
+def expectations(case: dict) -> dict:
+    """Oracle (5), stated on the INPUT: for every member / base that is a `$ref`, the member names of the
+    referring definition, the member, and the member names of the referenced definition. A class is told
+    by the set of members its class statement declares, so only definitions whose member set is unique in
+    the document take part (generated documents give every definition a member of its own)."""
+    fields: list = []
+    bases: list = []
+    objs: list[list[str]] = []
+    if "defs" in case:
+        doc = build_doc(case["defs"], case["bases"], case.get("roots"))["definitions"]
+        body = {}
+        for nm, sch in doc.items():
+            b = sch["allOf"][1] if "allOf" in sch else sch
+            body[nm] = _schema_props(b)
+            if body[nm] is not None:
+                objs.append(body[nm])
+        for nm, sch in doc.items():
+            if body[nm] is None:
+                continue
+            b = sch["allOf"][1] if "allOf" in sch else sch
+            for f, fs in b["properties"].items():
+                if "$ref" in fs:
+                    t = body.get(fs["$ref"].rsplit("/", 1)[-1])
+                    if t is not None:
+                        fields.append([body[nm], f, t])
+            if "allOf" in sch:
+                t = body.get(sch["allOf"][0]["$ref"].rsplit("/", 1)[-1])
+                if t is not None:
+                    bases.append([body[nm], t])
+    else:
+        files = case["files"]
+
+        def target_of(rel: str, ref: str):
+            path, _, frag = ref.partition("#")
+            f = os.path.normpath(os.path.join(os.path.dirname(rel), path)) if path else rel
+            node = files.get(f)
+            for part in [x for x in frag.split("/") if x]:
+                node = node.get(part) if isinstance(node, dict) else None
+            return _schema_props(node)
+
+        def walk(rel: str, node) -> None:
+            props = _schema_props(node)
+            if props is not None:
+                objs.append(props)
+                for f, fs in node["properties"].items():
+                    if isinstance(fs, dict) and "$ref" in fs:
+                        t = target_of(rel, fs["$ref"])
+                        if t is not None:
+                            fields.append([props, f, t])
+            if isinstance(node, dict):
+                for d in (node.get("definitions") or {}).values():
+                    walk(rel, d)
+
+        for rel, obj in files.items():
+            walk(rel, obj)
+    unique = lambda p: objs.count(p) == 1
+    return {
+        "fields": [e for e in fields if unique(e[0]) and unique(e[2])],
+        "bases": [e for e in bases if unique(e[0]) and unique(e[1])],
+        "skipped": sum(1 for e in fields + bases if not (unique(e[0]) and unique(e[-1]))),
+    }
+
+
+def import_packages(packages: dict[str, dict[str, str]], v1_shim: set[str], expect: dict[str, dict] | None = None) -> dict[str, dict]:
+    """Oracles (4) and (5): write every package to a scratch directory and import each of its modules in ONE
+    fresh interpreter (by the name an import statement can give it); evaluate every annotation; compare the
+    class every `$ref` member / base reaches with the referenced definition.
+    Returns per package: {"modules": module -> None | error text, "reach": module -> [failure text]}."""
     root = Path(tempfile.mkdtemp(dir=e2e.scratch_root()))
     jobs: dict[str, list[str]] = {}
     for pkg, files in packages.items():
@@ -572,7 +721,7 @@ def import_packages(packages: dict[str, dict[str, str]], v1_shim: set[str]) -> d
                 if all(c.isidentifier() for c in m):
                     mods.append(".".join((pkg, *m)))
         jobs[pkg] = sorted(mods)
-    (root / "jobs.json").write_text(json.dumps(jobs))
+    (root / "jobs.json").write_text(json.dumps({"jobs": jobs, "expect": expect or {}}))
     try:
         proc = subprocess.run([PY, "-c", IMPORT_SCRIPT, str(root), str(root / "jobs.json")], capture_output=True, text=True, timeout=300)
         if proc.returncode != 0:
@@ -781,31 +930,48 @@ def correspondence(ck: Check, camp, case: dict, files: dict[str, str], pred: dic
             ck.disagree(camp, {"what": f"relative imports of {rel}", **case}, want_i, got)
 
 
+REACH_INHERITS = ("init_name_shadows_submodule", "init_body_copied")
+
+
 def flush_imports(ck: Check, camp, pending: list) -> None:
-    """oracle (4) for all queued packages in one fresh interpreter"""
+    """oracles (4) and (5) for all queued packages in one fresh interpreter"""
     if not pending:
         return
     packages = {f"pkg{i}": files for i, (_, files, _, _) in enumerate(pending)}
     shim = {f"pkg{i}" for i, (case, _, _, _) in enumerate(pending) if case["model"] == "pydantic.BaseModel"}
+    expect = {f"pkg{i}": expectations(case) for i, (case, _, _, _) in enumerate(pending)}
     try:
-        results = import_packages(packages, shim)
+        results = import_packages(packages, shim, expect)
     except Exception as e:  # noqa: BLE001
         ck.infra_errors.append(f"import oracle: {e}")
         return
     for i, (case, files, pred, mechs) in enumerate(pending):
         camp.hit("packages_imported")
-        errs = {m: e for m, e in results.get(f"pkg{i}", {}).items() if e}
+        kind = "dotted_names" if "defs" in case else "file_tree"
+        exp = expect[f"pkg{i}"]
+        camp.hit("reach_expectations", len(exp["fields"]) + len(exp["bases"]))
+        if exp["skipped"]:
+            camp.hit("reach_skipped:ambiguous_or_root_model", exp["skipped"])
+        r = results.get(f"pkg{i}", {"modules": {}, "reach": {}})
+        errs = {m: e for m, e in r["modules"].items() if e}
         circ = {m for m, e in errs.items() if "partially initialized module" in e or "circular import" in e}
         if circ:  # an ordering problem between modules that import each other's names (C02), not a resolution problem
             camp.hit("circular_import_not_C12", len(circ))
             errs = {m: e for m, e in errs.items() if m not in circ}
-        if not errs:
-            continue
-        m, e = sorted(errs.items())[0]
-        mech = mechs[0] if mechs else "runtime_only"
-        camp.hit(f"import_failed:{mech}")
-        ck.fail({"oracle": "import_subprocess", "input_kind": "dotted_names" if "defs" in case else "file_tree", "mechanism": mech}, case,
-                f"importing {m.split('.', 1)[-1] if '.' in m else '<root>'} in a fresh interpreter: {e}")
+        if errs:
+            m, e = sorted(errs.items())[0]
+            mech = mechs[0] if mechs else "runtime_only"
+            camp.hit(f"import_failed:{mech}")
+            ck.fail({"oracle": "import_subprocess", "input_kind": kind, "mechanism": mech}, case,
+                    f"importing {m.split('.', 1)[-1] if '.' in m else '<root>'} in a fresh interpreter: {e}")
+        # (5): the class reached is not the class of the referenced definition. It is a consequence of a recorded
+        # defect only where that defect is about a name bound to another module's object.
+        for m, texts in sorted(r["reach"].items()):
+            inherited = [x for x in mechs if x in REACH_INHERITS]
+            mech = inherited[0] if inherited else "wrong_class_reached"
+            camp.hit(f"reach_failed:{mech}")
+            ck.fail({"oracle": "use_reaches_target", "input_kind": kind, "mechanism": mech}, case,
+                    f"{m.split('.', 1)[-1] if '.' in m else '<root>'}: {texts[0]}")
     pending.clear()
 
 
